@@ -406,6 +406,9 @@ def trainer_options(rng, name, force_finite=False):
     return {}
 
 
+_NCL = [0]
+
+
 def case_model(rng, tier, i, degen=False, name=None, force_finite=False):
     name = name or mm.MODELS[int(rng.integers(0, len(mm.MODELS)))]
     K = int(rng.integers(1, 5)) if name != 'cacgmm' else int(rng.integers(2, 5))
@@ -433,7 +436,14 @@ def case_model(rng, tier, i, degen=False, name=None, force_finite=False):
     opts = mm.sample_options(rng, name, K, N, lead, with_aligner=(rng.random() < 0.15 and len(lead) == 1 and lead[0] % 2 == 1))
     iters = int(rng.integers(1, 5))
     topts = trainer_options(rng, name, force_finite)
-    rp = {'fn': 'model', 'model': name, 'data': {k: v for k, v in data.items() if k != 'labels'}, 'init': init,
+    _NCL[0] += 1
+    use_nc = (not degen) and _NCL[0] % 4 == 0 and 'source_activity_mask' not in opts
+    if use_nc:
+        # random start drawn by the trainer itself (num_classes=K); every second one stopped after the first M-step
+        style = 'num_classes'
+        if _NCL[0] % 8 == 0:
+            iters = 1
+    rp = {'fn': 'model', 'model': name, 'data': {k: v for k, v in data.items() if k != 'labels'}, 'init': init, 'num_classes': bool(use_nc),
           'opts': {k: v for k, v in opts.items() if k != 'inline_permutation_aligner'},
           'aligner': 'inline_permutation_aligner' in opts, 'iterations': iters, 'trainer_opts': topts,
           'np_seed': int(rng.integers(0, 2 ** 31)), 'degenerate': mode, 'pick_seed': int(rng.integers(0, 2 ** 31))}
@@ -480,7 +490,10 @@ def eval_model(rp):
     try:
         np.random.seed(rp['np_seed'])
         with Recorder() as rec:
-            model, trace = mm.fit(name, data, init, iterations=rp['iterations'], trainer=T, **opts)
+            if rp.get('num_classes'):
+                model, trace = mm.fit(name, data, None, num_classes=K, iterations=rp['iterations'], trainer=T, **opts)
+            else:
+                model, trace = mm.fit(name, data, init, iterations=rp['iterations'], trainer=T, **opts)
     except EXPLICIT as e:
         if deg:
             return None, None, None, '%s: %s' % (type(e).__name__, str(e)[:120]), False
